@@ -61,3 +61,30 @@ claim('C08', 'other',
       'Correctness of the atom labels the predicates read is C06/C13.',
       'trusts: EXPECTED semantics table in sa/r_query.py; DAYLIGHT_TABLE',
       'DESIGN.md 3.F-q, 4/C08')
+claim('C01', 'other',
+      'syntactic dataflow rules over the canonicalisation code (order-insensitive aggregation before hashing, '
+      'int-only hash inputs, sort-key == group-key) + wiring of __eq__/__hash__ + FLUSH dimension of the mutator protocol',
+      'decides necessary structural conditions only: equality/hash are the canonical string; each refinement step '
+      'sorts neighbour contributions before hashing; the hashed invariants are structure-only integers (no atom '
+      'number, coordinate, string); final classes are ranked by the hash value; every mutator flushes the cached '
+      'string/orders. Whether the DFS writer breaks all remaining ties identically for every numbering is NOT decided.',
+      'trusts: allow-list of integer attributes; exemption table of the mutator protocol',
+      'DESIGN.md 4/C01')
+claim('C17', 'other',
+      'syntactic rules: fold-mask form of every inserted bit index, order-insensitive aggregation before hashing, '
+      'int-only identifier tuples without atom numbers, reverse-canonical fragment keys',
+      'decides: folded indices are < length by construction (x & (length-1)), the number of insertions follows '
+      'number_active_bits, neighbourhood hashes sort their neighbour tuples, identifiers contain no atom number, '
+      'linear fragments are keyed by direction-canonical identifier tuples. That the enumerated fragment set is '
+      'exactly the set of simple paths / neighbourhoods is NOT decided.',
+      'trusts: length is a power of two (documented precondition of the API)',
+      'DESIGN.md 4/C17')
+claim('C19', 'other',
+      'syntactic rules: seed-independent (int-only) hash inputs, order-insensitive aggregation, no ambient '
+      'nondeterminism outside a frozen list, manual cache seeding uses the owner\'s canonical call, kept caches read structure only',
+      'decides necessary conditions for run-to-run identity: no string/object hash or unsorted dict iteration feeds an '
+      'ordering decision, random/time/id/uuid are not called outside documented randomised functions, the three '
+      'places that pre-seed cached strings compute what the owning function computes, copy(keep_*) transfers only '
+      'connectivity-derived caches. Tie-breaking by iteration over integer sets with different insertion histories is NOT decided.',
+      'trusts: NONDET_ALLOWED list in sa/r_canon.py',
+      'DESIGN.md 4/C19')
